@@ -32,7 +32,7 @@ pub mod hsrun;
 pub mod hsjudge;
 
 /// one plan in `HS_EVERY` is a handshake-tier plan (a pure function of the seed)
-const HS_EVERY: u64 = 12;
+const HS_EVERY: u64 = 15;
 /// (development knob: C17_HS_EVERY=1 makes every seeded plan a handshake-tier plan, e.g. for sensitivity runs)
 fn hs_every() -> u64 { static E: OnceLock<u64> = OnceLock::new(); *E.get_or_init(|| std::env::var("C17_HS_EVERY").ok().and_then(|s| s.parse().ok()).filter(|n| *n >= 1).unwrap_or(HS_EVERY)) }
 fn is_hs_seed(seed: u64) -> bool { Prng::derive(seed, "c17/tier").below(hs_every()) == 0 }
@@ -1002,7 +1002,7 @@ impl Property for C17 {
     fn descr(&self) -> Descr {
         Descr {
             level: "exploration",
-            rule: "MODEL TIER (11 plans in 12 and the exhaustive part): seeded histories (swarm: family, certificate pool of 2-11 fixtures, operation mix, names/expiry overrides, fingerprint spellings, World hash seed) of add/remove/replace on a real CertificateResolver; after every operation 15 hosts x 5 spellings are looked up through domain_lookup (both wildcard modes), names_for_sni, get_certificate and ResolvesServerCert::resolve (parsed ClientHello) and compared with the reference model; a run is non-trivial when >=1 certificate was loaded and >=1 probe was answered with a loaded certificate; distinct = distinct hashes over operations, results and all lookup answers; checking stops at the first diverging operation; plus an exhaustive part: every load order x every removal order of every 3-subset (thorough: and 4-subset) of nine overlapping certificates. HANDSHAKE TIER (1 seeded plan in 12, families hs_*): a real worker (Server::run under the simulator) with 1-2 HTTPS listeners, 0-4 initial fixture certificates per listener and a seeded script of 1-6 (thorough 1-12) AddCertificate / RemoveCertificate / ReplaceCertificate commands (names/expiry overrides, occasionally invalid PEM, unknown fingerprints, AddHttpsFrontend / RemoveHttpsFrontend) sent by the tier's own master actor at seeded virtual times, fragmented down to 17-byte writes, interleaved with 3-9 (thorough 3-12) TLS clients (rustls client TLS 1.2/1.3 that records the presented chain, or a raw TLS 1.2 ClientHello with verbatim SNI bytes read up to the Certificate message) whose SNI is an exact / wildcard-covered / uncovered name in canonical, upper-case, mixed-case, trailing-dot spelling or absent, started at seeded times or gated on 'command k written / acknowledged'; ClientHellos are optionally split so that a command is sent after the first part and the rest follows its acknowledgement, and the client's Finished flight is optionally held back until a command sent after the certificate was seen is acknowledged; 30-85% of the rustls clients then send one H1 or H2 request whose authority is / is not covered. Every command interval [stamp before first byte written, stamp when the final answer was read] and every handshake interval [stamp before connect, stamp when the certificate was seen] is taken from the world's global event counter; the served certificate must be the model's answer for the canonicalised SNI in the listener state after SOME command prefix p with (#commands acknowledged before the handshake started) <= p <= (#commands whose sending began before the certificate was seen) (commands are FIFO on one channel, results OK/FAILURE as answered and checked against the model). Classes: wrong_cert_served, removed_cert_served, other_listener_cert_served, unloaded_cert_served, handshake_failed(_during_replace), handshake_stalled, op_result, command_not_answered, strict_sni_not_enforced / strict_sni_false_reject (421 expected iff strict binding is on, an SNI was sent and the authority is covered by no name the served certificate was loaded with; default certificate served: 421 required only when authority != SNI), plus the model tier's keys for defects it already recorded (panic|name_with_slash, store_disagreement|replace_self_unloaded, noncanonical_cert_name_ignored). A handshake-tier run is non-trivial when >=1 runtime command was answered and >=1 handshake outcome was judged against the model; distinct = world trace hash (every syscall, scheduling decision, TLS byte) mixed with command results, served certificates and statuses",
+            rule: "MODEL TIER (14 plans in 15 and the exhaustive part): seeded histories (swarm: family, certificate pool of 2-11 fixtures, operation mix, names/expiry overrides, fingerprint spellings, World hash seed) of add/remove/replace on a real CertificateResolver; after every operation 15 hosts x 5 spellings are looked up through domain_lookup (both wildcard modes), names_for_sni, get_certificate and ResolvesServerCert::resolve (parsed ClientHello) and compared with the reference model; a run is non-trivial when >=1 certificate was loaded and >=1 probe was answered with a loaded certificate; distinct = distinct hashes over operations, results and all lookup answers; checking stops at the first diverging operation; plus an exhaustive part: every load order x every removal order of every 3-subset (thorough: and 4-subset) of nine overlapping certificates. HANDSHAKE TIER (1 seeded plan in 15, families hs_*): a real worker (Server::run under the simulator) with 1-2 HTTPS listeners, 0-4 initial fixture certificates and 0-7 initial frontends per listener (every frontend hostname is a tenant of its own: cluster t_<hostname> with its own HTTP/1.1 mock backend whose answers carry the tenant's name and echo the request id) and a seeded script of 1-6 (thorough 1-12) AddCertificate / RemoveCertificate / ReplaceCertificate commands (names/expiry overrides, occasionally invalid PEM, unknown fingerprints, AddHttpsFrontend / RemoveHttpsFrontend) sent by the tier's own master actor at seeded virtual times, fragmented down to 17-byte writes, interleaved with 3-9 (thorough 3-12) TLS clients (rustls client TLS 1.2/1.3 that records the presented chain, or a raw TLS 1.2 ClientHello with verbatim SNI bytes read up to the Certificate message) whose SNI is an exact / wildcard-covered / uncovered name in canonical, upper-case, mixed-case, trailing-dot spelling or absent, started at seeded times or gated on 'command k written / acknowledged'; ClientHellos are optionally split so that a command is sent after the first part and the rest follows its acknowledgement, and the client's Finished flight is optionally held back until a command sent after the certificate was seen is acknowledged; 30-85% of the rustls clients then send a seeded SEQUENCE of 1-3 requests on the connection: HTTP/1.1 keep-alive (the next request follows the complete answer of the previous one) or HTTP/2 streams 1,3,5 (each opened either in the same flight as its predecessor or after the predecessor's END_STREAM); every request has its own authority: equal to the SNI, the SNI in another case or with a port, another name covered by a certificate that also covers the SNI, another tenant with a frontend on the listener, a name no certificate covers, or a random probe host. Every command interval [stamp before first byte written, stamp when the final answer was read] and every handshake interval [stamp before connect, stamp when the certificate was seen] is taken from the world's global event counter; the served certificate must be the model's answer for the canonicalised SNI in the listener state after SOME command prefix p with (#commands acknowledged before the handshake started) <= p <= (#commands whose sending began before the certificate was seen) (commands are FIFO on one channel, results OK/FAILURE as answered and checked against the model). Classes: wrong_cert_served, removed_cert_served, other_listener_cert_served, unloaded_cert_served, handshake_failed(_during_replace), handshake_stalled, op_result, command_not_answered, strict_sni_not_enforced / strict_sni_false_reject, judged for EVERY request of a connection (421 expected iff strict binding is on for the listener, an SNI was sent and the authority is covered by no name the certificate presented on THIS connection was loaded with; default certificate served: 421 required only when authority != SNI; a request that must be rejected must also not appear at any tenant's backend, whether or not the client saw an answer); keys: first requests keep the single-request keys (<h1|h2>|<quiescent|sni_spelling>, resp. <h1|h2>|<covered|strict_disabled>|<trigger>), later requests add the position (<h1|h2>|<later_on_keepalive|later_h2_stream>|...), and a certificate command of the listener sent between the client's connect and the first answer seen on the connection is the single key cert_command_during_connection_setup whatever the position; requests that are not rejected are judged against the routed outcome: an answer by a backend must come from the tenant named by the canonicalised authority (wrong_tenant_answered) and echo this request's id (answer_of_another_request), there must be a frontend for the hostname in some listener state between (#commands acknowledged before the request was sent) and (#commands whose sending began before the answer was seen) (routed_without_frontend), and a proxy-made answer other than 404-without-frontend while the frontend exists in all those states and the authority is spelled canonically is routed_request_not_served, plus the model tier's keys for defects it already recorded (panic|name_with_slash, store_disagreement|replace_self_unloaded, noncanonical_cert_name_ignored). A handshake-tier run is non-trivial when >=1 runtime command was answered and >=1 handshake outcome was judged against the model; distinct = world trace hash (every syscall, scheduling decision, TLS byte) mixed with command results, served certificates, the status of every request and the number of backends that saw it",
             assumptions: vec![
                 "certificate names and SNI compare case-insensitively, a trailing dot is insignificant (RFC 6125 6.4.1 / RFC 4343); a wildcard covers exactly one left-most label",
                 "adding a fingerprint that is already loaded is a no-op (doc comment of add_certificate), including its names/expiry overrides",
@@ -1012,11 +1012,12 @@ impl Property for C17 {
                 "handshake tier: commands on one channel take effect in sending order, each atomically between its first byte being written and its answer being read; a certificate is chosen between the client's connect and the moment the client sees it",
                 "handshake tier: 'the listener's default certificate' is the built-in lib/assets/certificate.pem for every listener (the worker never consults HttpsListenerConfig.certificate); a ClientHello without SNI must be served it (property text, doc/configure.md 'Default certificate ... (without SNI)')",
                 "handshake tier: a trailing-dot SNI (RFC 6066 forbids it) may be refused or treated as the same host, but not answered with the default certificate when a loaded certificate covers the host; with the default certificate served and authority == SNI both 421 and a routed answer are accepted",
+                "handshake tier: the names a connection is bound to are fixed once the first answer on it has been seen (a certificate command sent later cannot excuse an answer); a request whose authority differs from a frontend hostname only by case may be answered 404 (the documentation does not promise host normalisation in routing; same reading as the routing check C04) but never by another tenant's backend; frontend commands take effect as answered (their results are not judged here)",
             ],
-            real: vec!["sozu_lib::tls::CertificateResolver / MutexCertificateResolver (add, remove, replace, domain_lookup, names_for_sni, get_certificate, ResolvesServerCert::resolve)", "sozu_lib::router::pattern_trie::TrieNode", "sozu_command_lib::certificate (PEM/X.509 parsing, names, fingerprints)", "rustls Acceptor ClientHello parsing and SNI normalisation", "std HashMap with World-seeded hash keys", "handshake tier: sozu_lib::server::Server::run (command channel, notify -> HttpsProxy add/remove/replace_certificate, listener activation, accept), HttpsListener + rustls ServerConfig/ResolvesServerCert in real handshakes (TLS 1.2 and 1.3), https.rs upgrade_handshake (SNI normalisation, tls_cert_names snapshot), mux router strict SNI binding / 421 for H1 and H2 frontends, rustls client (ring) as peer"],
-            stub: vec!["no listener, no sockets: operations are applied directly to the resolver, probes are direct calls", "ClientHello bytes are synthesised by the harness", "handshake tier: master process (own actor with independent framing codec), clock, entropy, AF_UNIX sockets standing in for TCP; no backends (requests end in 404/503/421 answers by sozu); the raw TLS 1.2 client stops after the Certificate message"],
+            real: vec!["sozu_lib::tls::CertificateResolver / MutexCertificateResolver (add, remove, replace, domain_lookup, names_for_sni, get_certificate, ResolvesServerCert::resolve)", "sozu_lib::router::pattern_trie::TrieNode", "sozu_command_lib::certificate (PEM/X.509 parsing, names, fingerprints)", "rustls Acceptor ClientHello parsing and SNI normalisation", "std HashMap with World-seeded hash keys", "handshake tier: sozu_lib::server::Server::run (command channel, notify -> HttpsProxy add/remove/replace_certificate, listener activation, accept), HttpsListener + rustls ServerConfig/ResolvesServerCert in real handshakes (TLS 1.2 and 1.3), https.rs upgrade_handshake (SNI normalisation, tls_cert_names snapshot), mux router strict SNI binding / 421 for H1 and H2 frontends on first and later requests of a connection (keep-alive reuse, H2 stream contexts), routing to per-tenant clusters and backend connection reuse across tenants, rustls client (ring) as peer"],
+            stub: vec!["no listener, no sockets: operations are applied directly to the resolver, probes are direct calls", "ClientHello bytes are synthesised by the harness", "handshake tier: master process (own actor with independent framing codec), clock, entropy, AF_UNIX sockets standing in for TCP; backends are scripted HTTP/1.1 peers (one per tenant, always up, empty 200 answers); the tier's H2 client is a minimal frame/HPACK peer (no CONTINUATION, no flow-control updates: answers are empty); the raw TLS 1.2 client stops after the Certificate message"],
             not_covered: vec![
-                "handshake tier: certificates per handshake are observed by the client only (no white-box view of the resolver); one worker, no multi-worker divergence; listener removal / deactivation / UpdateHttpsListener (strict flag patched at runtime) while handshaking; TLS session resumption / tickets (resumption is off in the client); client certificates; ALPN-dependent certificate choice; more than one request per connection (H2 coalescing across SANs after a certificate change); requests that reach a backend",
+                "handshake tier: certificates per handshake are observed by the client only (no white-box view of the resolver); one worker, no multi-worker divergence; listener removal / deactivation / UpdateHttpsListener (strict flag patched at runtime) while handshaking; TLS session resumption / tickets (resumption is off in the client); client certificates; ALPN-dependent certificate choice; more than 3 requests per connection, HTTP/1.1 pipelining (a later request is only sent after the complete previous answer, so after a 404/421 by the proxy, which closes the HTTP/1.1 connection, nothing follows), requests with bodies, H2 backends, wildcard / path / method frontends (routing is C04's subject: only exact hostnames with prefix '/' here), a certificate command racing with a LATER request is not a trigger of its own (the binding is fixed at the handshake; such runs are judged against the presented certificate), later requests on a connection whose set-up raced with a certificate command are reported under the recorded key cert_command_during_connection_setup (G6) and therefore do not separate a second defect there",
                 "IDN / punycode names; partial-label wildcards (w*.a.test); '/regex/' certificate names (the trie interprets them as routing regexes)",
                 "certificate/key mismatch, chain validity, expiry relative to the clock (the resolver never looks at the clock)",
                 "the add-before-remove ordering inside one replace_certificate call (the 'window') cannot be observed through a single-threaded API call; only the state after the call is checked",
